@@ -92,3 +92,7 @@ mod crypto;
 mod mpc;
 #[allow(dead_code)]
 mod utils;
+#[cfg(feature = "__verif")]
+#[doc(hidden)]
+#[allow(missing_docs)]
+pub mod verif;
